@@ -169,7 +169,7 @@ def gen_case(pyrng, present, nmax=12, force=None):
         else:
             v = g.normal(size=n) + (1j * g.normal(size=n) if cplx else 0)
             if start == "scaled":
-                v = v * float(g.choice([1e3, 1e-3, 7.0]))
+                v = v * float(g.choice([1e3, 1e-3, 7.0, 1e-30, 1e-20, 1e-12, 1e-11, 1e-9, 1e-6, 1e6, 1e12, 1e20, 1e30]))      # start-vector norms from 1e-30 to 1e30
             grades.append(distinct)
         vs.append(v if cplx else np.real(v))
     c["start"] = start
@@ -213,6 +213,76 @@ def gen_mixed_batch(pyrng, nmax=10):
                 v=enc(np.stack(vs, 0)), max_iters=int(g.integers(r + 1, n)), tol=float(g.choice([1e-7, 1e-6, 1e-3])), entry="lanczos")
 
 
+def default_probe(n, key=None):
+    """the start vector lanczos / arnoldi draw when none is given, reproduced independently of cola: randn(n, key=PRNGKey(42)) or
+    randn(n, key=key); the numpy backend's PRNGKey(x) is int(sha256(big-endian bytes of x)) mod (2^32 - 1) and randn(key) is
+    numpy's legacy generator seeded with the key (cast to the operator's dtype: real values also for complex operators)"""
+    import hashlib
+    if key is None:
+        x = 42
+        key = int.from_bytes(hashlib.sha256(x.to_bytes((x.bit_length() + 7) // 8, "big")).digest(), "big") % (2 ** 32 - 1)
+    return np.random.RandomState(int(key)).randn(n)
+
+
+def gen_nostart(pyrng, present, nmax=10):
+    """calls WITHOUT a start vector (default random probe; key given or not) on every operator kind, in particular Tridiagonal (negative,
+    zero and complex Hermitian couplings), Diagonal and Identity annotated SelfAdjoint: the factorisation must be that of the default
+    probe, which the harness reproduces independently (default_probe)"""
+    g = np.random.default_rng(pyrng.getrandbits(64))
+    kind = str(g.choice(["tridiag", "tridiag", "tridiagc", "diag", "identity", "dense", "psd", "sum", "scaled", "kron", "matmat"]))
+    while True:
+        c = gen_case(pyrng, present, nmax=nmax, force=dict(start="random", kind=("tridiag" if kind in ("tridiagc", "identity") else kind)))
+        if c["batch"] == 0:
+            break
+    n = c["n"]
+    if kind in ("tridiag", "tridiagc") and n > 1:
+        al = dec(c["parts"][0]).real; be = dec(c["parts"][1]).real
+        al = np.where(g.random(n - 1) < 0.25, 0.0, al)                       # some zero couplings
+        if kind == "tridiagc":
+            al = al + 1j * g.normal(size=n - 1); c["cplx"] = True; c["kind"] = "tridiagc"
+        c["parts"] = [enc(al), enc(be)]
+    elif kind == "identity":
+        c.update(kind="identity", parts=[], cplx=False)
+    c["key"] = None if g.random() < 0.5 else int(g.integers(1, 2 ** 31))
+    v = default_probe(n, c["key"])
+    c["v"] = enc((v + 0j)[None, :])
+    c["cplx_start"] = False
+    c["grades"] = [n if kind not in ("identity",) else 1]
+    c["entry"] = "lanczos_nostart"
+    c["start"] = "default_probe"
+    c["tol"] = float(g.choice([1e-7, 1e-6, 1e-3]))
+    return c
+
+
+def gen_graded(pyrng):
+    """symmetrically graded operators S = D M D, D = diag(1 .. 10^k), k = 1..4, M symmetric well conditioned; lanczos_eigs with
+    max_iters >= n"""
+    g = np.random.default_rng(pyrng.getrandbits(64))
+    n = int(g.integers(3, 9)); k = float(g.integers(1, 5))
+    B = g.standard_normal((n, n)); M = (B + B.T) / 2 + 3.0 * np.eye(n)
+    D = np.logspace(0, k, n)
+    S = D[:, None] * M * D[None, :]
+    v = np.eye(n)[0] if g.random() < 0.6 else g.standard_normal(n)
+    return dict(kind="dense", cplx=False, style="graded", parts=[enc(S)], n=n, n1=n, coupling=1.0, start="graded", batch=0, grades=[n],
+                v=enc((v + 0j)[None, :]), max_iters=int(g.choice([n, n, n + 2])), tol=float(g.choice([1e-7, 1e-6, 1e-10])), entry="lanczos_eigs", family="graded")
+
+
+def oracle_graded(c, obs):
+    """lanczos_eigs on graded operators: values = eigenvalues of the T of lanczos() for the same arguments; with n columns, the spectrum
+    of A relative to its largest eigenvalue"""
+    if not obs.get("ok"):
+        return ["raised " + obs.get("err", "")]
+    bad = []
+    S = np.asarray(dense_of(c), dtype=float); n = c["n"]
+    w = dec(obs["eigs"]).real; T = dec(obs["T"][0])
+    ref = np.linalg.eigvalsh(herm(T)); lam = np.linalg.eigvalsh(S); top = np.abs(lam).max()
+    if len(w) != len(ref) or hausdorff(w, ref) > 1e-9 * top:
+        bad.append(f"lanczos_eigs values are not the eigenvalues of the T of lanczos() for the same arguments (distance {hausdorff(w, ref):.3g})")
+    if len(w) == n and np.abs(np.sort(w) - lam).max() > 1e-8 * top:
+        bad.append(f"lanczos_eigs with max_iters >= n does not return the spectrum of the graded operator (error {np.abs(np.sort(w) - lam).max() / top:.3g} of the largest eigenvalue)")
+    return bad
+
+
 def gen_mixed_dtype(pyrng, nmax=10):
     """the start vector's dtype is wider than the operator's: a complex start vector on a real symmetric operator, or a float64
     start vector on a float32 operator (entries exactly representable in float32).  The factorisation must be that of the start
@@ -230,6 +300,7 @@ def gen_mixed_dtype(pyrng, nmax=10):
         M = dec(c["parts"][0]).real.astype(np.float32).astype(np.float64)
         c["parts"] = [enc(M)]
         c.update(op_f32=True, mixed="float64 start / float32 operator")
+    V = V * float(g.choice([1.0, 1.0, 1e-15, 1e-12, 1e-6, 1e6, 1e15]))
     c["v"] = enc(V)
     c["tol"] = float(g.choice([1e-7, 1e-6, 1e-3]))
     c["entry"] = str(g.choice(["lanczos", "Lanczos()", "lanczos_eigs"])) if c["batch"] == 0 else "lanczos"
@@ -243,7 +314,7 @@ def gen_exact_case(pyrng):
     max_iters in {1, grade, grade+1, n-1, n, n+1, n+3}, n = 1"""
     g = np.random.default_rng(pyrng.getrandbits(64))
     fam = str(g.choice(["identity", "scaledI", "diag_e", "diag4", "involution", "block2", "block2c", "one"]))
-    p2 = lambda: float(g.choice([1.0, -1.0, 2.0, -0.5, 4.0]))
+    p2 = lambda: float(g.choice([1.0, -1.0, 2.0, -0.5, 4.0, 2.0 ** -40, -2.0 ** 40, 2.0 ** -100, 2.0 ** 100]))
     cplx = False
     n = int(g.integers(2, 9))
     c = dict(start="exact", family=fam, style="exact")
@@ -425,6 +496,9 @@ def dense_of(c):
     elif k == "tridiag":
         al, be = dec(p[0]), dec(p[1])
         S = np.diag(be) + (np.diag(al, 1) + np.diag(al, -1) if len(be) > 1 else 0)
+    elif k == "tridiagc":                  # complex Hermitian: lower band al, upper band conj(al)
+        al, be = dec(p[0]), dec(p[1])
+        S = np.diag(be) + (np.diag(np.conj(al), 1) + np.diag(al, -1) if len(be) > 1 else 0)
     elif k == "prod":
         M = dec(p[0]); S = M.conj().T @ M
     elif k == "sum":
@@ -449,6 +523,8 @@ def build_op(c):
         A = ops.Diagonal(cast(p[0]))
     elif k == "tridiag":
         A = ops.Tridiagonal(cast(p[0]), cast(p[1]), cast(p[0]))
+    elif k == "tridiagc":
+        A = ops.Tridiagonal(cast(p[0]), cast(p[1]), np.conj(cast(p[0])))
     elif k == "prod":
         M = ops.Dense(cast(p[0])); A = M.H @ M
     elif k == "sum":
@@ -483,7 +559,10 @@ def run_impl(c):
         v = start_of(c)
         x = np.ones((c["n"], 1), dtype=A.dtype)
         obs["alias"] = bool(np.shares_memory(A @ x, x))
-        if c["entry"] == "Lanczos()":
+        if c["entry"] == "lanczos_nostart":
+            kw = {} if c.get("key") is None else dict(key=c["key"])
+            Q, T, info = lanczos(A, max_iters=c["max_iters"], tol=c["tol"], **kw)
+        elif c["entry"] == "Lanczos()":
             Q, T, info = Lanczos(start_vector=v, max_iters=c["max_iters"], tol=c["tol"])(A)
         else:
             Q, T, info = lanczos(A, v, max_iters=c["max_iters"], tol=c["tol"])
